@@ -1285,6 +1285,15 @@ def C19(ck):
             o = kzcli.level_opts(rnd) + ['-v', '0']
             cli.path_forms(rnd, k, o, ' '.join(o))
             k += 1
+        # files larger than a block at the block sizes of the high levels (8 and 16 MiB): explicit fast pipelines in the quick tier,
+        # the real levels 5..9 in the thorough tier
+        bigs = [(['-t', 'BWT', '-e', 'NONE', '-b', '16m', '-j', '2', '-v', '0'], [9 << 20, (5 << 20) + 3]),
+                (['-t', 'LZX', '-e', 'HUFFMAN', '-b', '8m', '-j', '4', '-v', '0'], [(17 << 20) + 1])]
+        if T:
+            bigs += [(['-l', str(l), '-j', '4', '-v', '0'], [9 << 20, (4 << 20) + 5]) for l in (5, 6, 7)]
+        for o, sizes in bigs:
+            cli.big_files(rnd, k, o, ' '.join(o), sizes)
+            k += 1
         for i in range(20 if T else 4):
             o = kzcli.level_opts(rnd) + kzcli.extra_opts(rnd)
             cli.single_and_pipes(rnd, k, o, ' '.join(o))
